@@ -70,6 +70,24 @@ def probe_crate(dirpath, feats, std, derives):
 
 _USAGE = None
 
+# derives whose C01 programs lean on a second derive_more derive (Sum on Add, Error on Display, ...): the companion impl is written by hand
+_DISP = "impl ::core::fmt::Display for Sx { fn fmt(&self, f: &mut ::core::fmt::Formatter<'_>) -> ::core::fmt::Result { f.write_str(\"e\") } }"
+EXTRA_USAGE = {
+    "Sum": ["#[derive(derive_more::Sum)] pub struct Sx(H<(), 1>, H<(), 1>);\nimpl ::core::ops::Add for Sx { type Output = Sx; fn add(self, o: Sx) -> Sx { Sx(self.0 + o.0, self.1 + o.1) } }\npub fn run() -> Sx { ::core::iter::empty::<Sx>().sum() }",
+            "#[derive(derive_more::Sum)] pub struct Sx { a: H<(), 1> }\nimpl ::core::ops::Add for Sx { type Output = Sx; fn add(self, o: Sx) -> Sx { Sx { a: self.a + o.a } } }"],
+    "Product": ["#[derive(derive_more::Product)] pub struct Sx(H<(), 1>, H<(), 1>);\nimpl ::core::ops::Mul for Sx { type Output = Sx; fn mul(self, o: Sx) -> Sx { Sx(self.0 * o.0, self.1 * o.1) } }\npub fn run() -> Sx { ::core::iter::empty::<Sx>().product() }"],
+    "DerefMut": ["#[derive(derive_more::DerefMut)] pub struct Sx(H<(), 1>);\nimpl ::core::ops::Deref for Sx { type Target = H<(), 1>; fn deref(&self) -> &H<(), 1> { &self.0 } }",
+                 "#[derive(derive_more::DerefMut)] #[deref_mut(forward)] pub struct Sx(H<(), 1>);\nimpl ::core::ops::Deref for Sx { type Target = [u8; 1]; fn deref(&self) -> &[u8; 1] { &self.0 } }",
+                 "#[derive(derive_more::DerefMut)] pub struct Sx { #[deref_mut] a: H<(), 1>, b: u8 }\nimpl ::core::ops::Deref for Sx { type Target = H<(), 1>; fn deref(&self) -> &H<(), 1> { &self.a } }"],
+    "IndexMut": ["#[derive(derive_more::IndexMut)] pub struct Sx(H<(), 1>);\nimpl<I> ::core::ops::Index<I> for Sx where H<(), 1>: ::core::ops::Index<I> { type Output = <H<(), 1> as ::core::ops::Index<I>>::Output; fn index(&self, i: I) -> &Self::Output { &self.0[i] } }",
+                 "#[derive(derive_more::IndexMut)] pub struct Sx { #[index_mut] a: H<(), 1>, b: u8 }\nimpl<I> ::core::ops::Index<I> for Sx where H<(), 1>: ::core::ops::Index<I> { type Output = <H<(), 1> as ::core::ops::Index<I>>::Output; fn index(&self, i: I) -> &Self::Output { &self.a[i] } }"],
+    "Error": ["#[derive(derive_more::Error)] #[derive(Debug)] pub struct Sx(H<(), 1>);\n" + _DISP,
+              "#[derive(derive_more::Error)] #[derive(Debug)] pub struct Sx { source: H<(), 1>, other: u8 }\n" + _DISP,
+              "#[derive(derive_more::Error)] #[derive(Debug)] pub struct Sx(#[error(ignore)] u8, #[error(source)] H<(), 1>);\n" + _DISP,
+              "#[derive(derive_more::Error)] #[derive(Debug)] pub enum Sx { Aa(H<(), 1>), B { source: H<(), 1>, fx: u8 }, #[error(ignore)] Ig(H<(), 1>), Cc }\n" + _DISP,
+              "#[derive(derive_more::Error)] #[derive(Debug)] pub struct Sx;\n" + _DISP],
+}
+
 
 def usage_modules():
     """derive name -> list of module texts (from C01's supported-shape space: plain and fully generic instantiations)
@@ -87,6 +105,11 @@ def usage_modules():
             if used != {m["derive"]}:
                 continue
             _USAGE.setdefault(m["derive"], []).append(c.module)
+        for d, mods in EXTRA_USAGE.items():
+            _USAGE.setdefault(d, []).extend("#[allow(unused_imports)] use super::*;\n" + m for m in mods)
+        missing = [d for d in tab if not _USAGE.get(d)]
+        if missing:
+            raise MachineryError("no usage program for derives: %s" % missing)
     return _USAGE
 
 
